@@ -49,12 +49,14 @@ Verdict(c) ==
   LET spec == SpecFacts(c.doc)
       real == ToSet(c.links)
       wrong == {f \in real : f \notin spec}
-      missing == {f.p : f \in spec} \ {f.p : f \in real}
+      \* per node AND kind of link: a variable use carries its "value" fact and its "varuse" fact
+      missing == {<<f.p, f.k>> : f \in spec} \ {<<f.p, f.k>> : f \in real}
       \* a variable use in a fragment reached by several operations may link to any of them: it is
       \* only wrong if no walk context produces it
   IN IF wrong # {} THEN LET f == CHOOSE f \in wrong : TRUE IN
                         [class |-> "wrong or missing link", fact |-> f, expected |-> {g \in spec : g.p = f.p /\ g.k = f.k}]
-     ELSE IF missing # {} THEN [class |-> "node visited by the walk carries no link", fact |-> Fact(CHOOSE p \in missing : TRUE, "", "", ""), expected |-> {}]
+     ELSE IF missing # {} THEN LET m == CHOOSE m \in missing : TRUE IN
+                               [class |-> "node visited by the walk lacks a link", fact |-> Fact(m[1], m[2], "", ""), expected |-> {g \in spec : g.p = m[1] /\ g.k = m[2]}]
      ELSE [class |-> "ok", fact |-> Fact("", "", "", ""), expected |-> {}]
 
 Init == i = 1 /\ bad = <<>> /\ n = 0
